@@ -236,3 +236,47 @@ Proof.
   rewrite IH, step_filter. destruct (P x); cbn; auto.
 Qed.
 End NonInteraction.
+
+(** ** M4 under an invariant: equivariance that holds for items satisfying [I] (preserved by
+    merging) lifts to the loop on lists of such items *)
+Section EquivarianceInv.
+Context {A : Type} (merge : A -> A -> option A) (t : A -> A) (I : A -> Prop).
+Context (Imerge : forall a b c, merge a b = Some c -> I a -> I b -> I c).
+Context (Ht : forall a b, I a -> I b -> merge (t a) (t b) = option_map t (merge a b)).
+
+Lemma tmr_map_inv gs x : Forall I gs -> I x ->
+  try_merge_rev merge (map t gs) (t x) = option_map (map t) (try_merge_rev merge gs x).
+Proof.
+  intros F Ix. induction F as [|g gs Ig Fg IH]; cbn; auto.
+  rewrite IH. destruct (try_merge_rev merge gs x); cbn; auto.
+  rewrite Ht by assumption. destruct (merge g x); reflexivity.
+Qed.
+Lemma step_map_inv gs x : Forall I gs -> I x -> step merge (map t gs) (t x) = map t (step merge gs x).
+Proof.
+  intros F Ix. unfold step. rewrite tmr_map_inv by assumption. destruct (try_merge_rev merge gs x); cbn; auto.
+  rewrite map_app; reflexivity.
+Qed.
+Lemma fold_step_map_inv l : forall acc, Forall I acc -> Forall I l ->
+  fold_left (step merge) (map t l) (map t acc) = map t (fold_left (step merge) l acc).
+Proof.
+  induction l as [|x xs IH]; intros acc Fa Fl; cbn [map fold_left]; [reflexivity|].
+  inversion Fl; subst. rewrite step_map_inv by assumption. apply IH; [|assumption].
+  apply (step_inv merge I Imerge); assumption.
+Qed.
+Lemma second_pass_map_inv l : Forall I l -> second_pass merge (map t l) = map t (second_pass merge l).
+Proof. intros F. unfold second_pass. apply (fold_step_map_inv l []); [constructor|exact F]. Qed.
+Lemma merge_rec_map_inv fuel : forall l, Forall I l ->
+  merge_rec merge fuel (map t l) = option_map (map t) (merge_rec merge fuel l).
+Proof.
+  induction fuel as [|f IH]; cbn [merge_rec]; intros l F; auto.
+  rewrite second_pass_map_inv by exact F. rewrite !map_length.
+  destruct (length (second_pass merge l) <? length l)%nat; auto.
+  apply IH. apply (second_pass_inv merge I Imerge); exact F.
+Qed.
+Theorem merge_recursive_map_inv l : Forall I l ->
+  merge_recursive merge (map t l) = match merge_recursive merge l with Ok r => Ok (map t r) | Err e => Err e end.
+Proof.
+  intros F. unfold merge_recursive. rewrite map_length, merge_rec_map_inv by exact F.
+  destruct (merge_rec merge (S (length l)) l); reflexivity.
+Qed.
+End EquivarianceInv.
